@@ -365,6 +365,12 @@ impl<T> NCReadStream<T> {
         let ret = lock.lock().unwrap().pop_front().map(|v| (v, Vec::new()));
         if ret.is_some() {
             note_activity();
+            #[cfg(feature = "verif-hooks")]
+            crate::verif::point(
+                crate::verif::pt::NC_POP,
+                1,
+                Arc::as_ptr(&self.q) as *const u8 as usize,
+            );
         }
         cv.notify_all();
         ret
@@ -396,6 +402,12 @@ impl<T> NCWriteStream<T> {
         // TODO: attach tags.
         lock.lock().unwrap().push_back(val);
         note_activity();
+        #[cfg(feature = "verif-hooks")]
+        crate::verif::point(
+            crate::verif::pt::NC_PUSH,
+            1,
+            Arc::as_ptr(&self.q) as *const u8 as usize,
+        );
         cv.notify_all();
     }
 }
